@@ -41,6 +41,7 @@ type MCont struct {
 	Seed   uint64       // map seed as reported by the library at creation (pure function of VID)
 	Volatile bool       // temp-owner container
 	Detached bool       // was removed from / overwritten in a parent and kept alive
+	FormerLineage []int // cids of the former parent and its ancestors at detachment (whose handles the stale callback reaches)
 }
 
 func (c *MCont) Count() int {
